@@ -163,4 +163,95 @@ theorem C13_shared_description_never_blocks (fd : Fd) (n : Nat) :
   rw [burst_close]
   exact C13_never_blocks fd1 n
 
+/-! ## Round sixteen: arbitrary interleavings of deliveries and reads
+
+`burst` is `n` deliveries in a row. A reader drains between deliveries at moments of its own choosing; the two
+statements below are over every such history. -/
+
+inductive PipeOp where | wake | drain
+deriving DecidableEq, Repr
+
+/-- run a history of deliveries and complete reads -/
+def runOps (m : Method) : Fd → List PipeOp → Fd × List WakeRes
+  | fd, [] => (fd, [])
+  | fd, .wake :: ops =>
+    let r := wake m fd
+    let rest := runOps m r.1 ops
+    (rest.1, r.2 :: rest.2)
+  | fd, .drain :: ops => runOps m (drain fd).1 ops
+
+theorem wake_nonblock (m : Method) (fd : Fd) : (wake m fd).1.nonblock = fd.nonblock ∧ (wake m fd).1.cap = fd.cap := by
+  simp only [wake]; split <;> (try cases m) <;> simp
+
+/-- **C13.history_never_blocks** — for every descriptor handed to `register_raw` and every history of deliveries and
+reads, no wake-up blocks. -/
+theorem C13_history_never_blocks (fd : Fd) (ops : List PipeOp) :
+    ∀ r ∈ (runOps (classify fd).1 (classify fd).2 ops).2, r ≠ .blocks := by
+  have key : ∀ (m : Method) (ops : List PipeOp) (f : Fd), (m = .write → f.nonblock = true) →
+      ∀ r ∈ (runOps m f ops).2, r ≠ .blocks := by
+    intro m ops
+    induction ops with
+    | nil => intro f _ r hr; simp [runOps] at hr
+    | cons op ops ih =>
+      intro f hm r hr
+      cases op with
+      | drain =>
+        simp only [runOps] at hr
+        exact ih (drain f).1 (by intro h; simpa [drain] using hm h) r hr
+      | wake =>
+        simp only [runOps, List.mem_cons] at hr
+        rcases hr with hr | hr
+        · subst hr
+          simp only [wake]
+          split
+          · simp
+          · cases m with
+            | send => simp
+            | write => simp [hm rfl]
+        · exact ih (wake m f).1 (by intro h; rw [(wake_nonblock m f).1]; exact hm h) r hr
+  apply key
+  intro hm
+  simp only [classify] at hm ⊢
+  split at hm <;> simp_all
+
+theorem runOps_cap (m : Method) (ops : List PipeOp) (fd : Fd) : (runOps m fd ops).1.cap = fd.cap := by
+  induction ops generalizing fd with
+  | nil => rfl
+  | cons op ops ih =>
+    cases op with
+    | wake => simp only [runOps]; rw [ih, (wake_nonblock m fd).2]
+    | drain => simp only [runOps]; rw [ih]; rfl
+
+theorem runOps_append (m : Method) (a b : List PipeOp) (fd : Fd) :
+    (runOps m fd (a ++ b)).1 = (runOps m (runOps m fd a).1 b).1 := by
+  induction a generalizing fd with
+  | nil => rfl
+  | cons op a ih => cases op <;> simp only [List.cons_append, runOps] <;> exact ih _
+
+/-- **C13.history_wakeup_not_lost** — in every history, if a delivery happened after the reader's last read, the
+descriptor is readable at the end (something is queued), whatever happened before and however full the queue was. -/
+theorem C13_history_wakeup_not_lost (m : Method) (fd : Fd) (pre post : List PipeOp) (hcap : 0 < fd.cap)
+    (hpost : ∀ op ∈ post, op = .wake) :
+    let e := (runOps m fd (pre ++ .wake :: post)).1
+    0 < e.fill + e.empties := by
+  simp only
+  rw [runOps_append]
+  have hc : (runOps m fd pre).1.cap = fd.cap := runOps_cap m pre fd
+  generalize (runOps m fd pre).1 = f at hc
+  have h1 : 0 < (wake m f).1.fill + (wake m f).1.empties := by
+    simp only [wake]; split <;> (try cases m) <;> simp <;> omega
+  simp only [runOps]
+  generalize (wake m f).1 = g at h1
+  induction post generalizing g with
+  | nil => simpa [runOps] using h1
+  | cons op post ih =>
+    have hop : op = .wake := hpost op (by simp)
+    subst hop
+    simp only [runOps]
+    apply ih (fun o ho => hpost o (by simp [ho]))
+    simp only [wake]; split <;> (try cases m) <;> simp <;> omega
+
+example : (runOps .write ⟨.pipe, true, 0, 2, 0, 0⟩ [.wake, .wake, .wake, .drain, .wake]).2 =
+    [.wrote, .wrote, .eagain, .wrote] := by decide
+
 end SigHook.Pipe
